@@ -195,6 +195,20 @@ def run_check(chk, tier, seed, replay=None):
         work = work + "." + str(os.getpid())
         shutil.rmtree(work, ignore_errors=True)
     os.makedirs(work, exist_ok=True)
+    # replay tier: counterexamples saved from earlier findings and seeded changes (committed under regress/<id>/) are replayed first;
+    # they take seconds and catch the return of exactly those defects before any search starts
+    regress_hits = []
+    rg = os.path.join(ROOT, "regress", pid)
+    n_regress = 0
+    if os.path.isdir(rg) and not chk.get("no_regress"):
+        for fn in sorted(os.listdir(rg)):
+            f = os.path.join(rg, fn)
+            n_regress += 1
+            for argv in chk["replay_argv"](f):
+                r = subprocess.run(argv, cwd=ROOT, stdout=subprocess.DEVNULL, stderr=subprocess.DEVNULL)
+                if r.returncode != 0:
+                    regress_hits.append((f"saved counterexample {fn} fails again", f))
+                    break
     jobs = chk["workers"](tier, seed, work)
     budget = chk.get("timeout", {}).get(tier, 1500)
     results = run_parallel(jobs, budget)
@@ -217,6 +231,7 @@ def run_check(chk, tier, seed, replay=None):
     if chk.get("collect"):
         violations.extend(chk["collect"](jobs, results))
         crashes = [(j, rc) for j, rc in crashes if not j.get("own_artifacts")]
+    violations.extend(regress_hits)
     for j, rc in crashes:
         # a harness process died (signal / sanitizer abort): the per-case file written before execution is the reproduction
         cand = os.path.join(j["faildir"], "current.case")
@@ -273,6 +288,7 @@ def run_check(chk, tier, seed, replay=None):
         "flaky": [{"what": d, "file": f, "reproduced": f"{n}/3"} for d, f, n in flaky],
         "inconclusive_timeouts": len(timeouts),
         "workers": len(jobs),
+        "saved_counterexamples_replayed": n_regress,
         "build_s": round(bt, 1),
         "exhaustive": bool(chk.get("exhaustive", False)),
     }
